@@ -354,7 +354,7 @@ def parallel_map(func, items, procs=None, chunk=200):
     """Map func over items with fork-based multiprocessing (func must be module-level)."""
     import multiprocessing as mp
     procs = procs or NPROC
-    if len(items) < 50 or procs == 1:
+    if (len(items) < 50 and chunk != 1) or procs == 1:
         return [func(x) for x in items]
     ctx = mp.get_context('fork')
     with ctx.Pool(procs) as pool:
